@@ -54,6 +54,7 @@ def _len_ops():
 
 
 LIST_ARGS = [
+    "[schema.any]", "[schema.any, schema.int(1)]", "[schema.alias('A', schema.any), ...]", "[..., schema.any]",
     "[schema.int(1), schema.int(2)]", "[schema.int(1), ...]", "[..., schema.int(1)]",
     "[..., schema.int(1), ...]", "[...]", "[..., ...]", "[schema.int, ..., schema.int]",
     "[..., ..., schema.int]", "[schema.int, ..., ...]", "[1]", "[schema.int, 1]", "[None]", "[Nil]",
@@ -122,7 +123,7 @@ FOCUS = {
     "str": (_one("call", ["''", "'ab'"]) + _one("alphabet", ["''", "'ab'"]) + _one("contains", ["''", "'b'"]) +
             [("len", ("0",)), ("len", ("2",)), ("len", ("0", "...")), ("len", ("...", "0")), ("len", ("0", "0")),
              ("len", ("...", "2"))], 3),
-    "list": (_one("call", ["[]", "[schema.int(0)]", "schema.int"]) +
+    "list": (_one("call", ["[]", "[schema.int(0)]", "schema.int", "[schema.any]", "[schema.any, schema.int(1)]"]) +
              [("len", ("0",)), ("len", ("1",)), ("len", ("0", "...")), ("len", ("...", "0")), ("len", ("0", "0"))], 3),
 }
 
